@@ -5,6 +5,7 @@ import (
 	"go/ast"
 	"go/token"
 	"go/types"
+	"os"
 	"sort"
 	"strings"
 
@@ -19,6 +20,15 @@ type State struct {
 	regions  []region
 	embSeen  map[string]bool
 	memEpoch int
+	// privEpoch names the not yet materialised memories of private fields that the
+	// foreign calls since then cannot have written (see private.go); fReach /
+	// fReachAll accumulate what those calls were handed.
+	privEpoch int
+	fReach    map[string]bool
+	fReachAll bool
+	// pend: memories havocked before they were ever materialised, with the epoch of
+	// that havoc
+	pend map[string]int
 }
 
 func newState() *State {
@@ -59,6 +69,19 @@ func (s *State) fork() *State {
 	n.pc = append([]Term(nil), s.pc...)
 	n.facts = append([]Term(nil), s.facts...)
 	n.regions = append([]region(nil), s.regions...)
+	n.privEpoch, n.fReachAll = s.privEpoch, s.fReachAll
+	if len(s.pend) > 0 {
+		n.pend = make(map[string]int, len(s.pend))
+		for k, v := range s.pend {
+			n.pend[k] = v
+		}
+	}
+	if len(s.fReach) > 0 {
+		n.fReach = make(map[string]bool, len(s.fReach))
+		for k := range s.fReach {
+			n.fReach[k] = true
+		}
+	}
 	return n
 }
 
@@ -329,13 +352,13 @@ func (x *Exec) merge(a, b *State) *State {
 				n.mem[m] = x.ctx.Share(Ite(ca, ta, tb))
 			}
 		} else {
-			init := x.ctx.Const(lazyMemName(m, b.memEpoch), ta.Sort)
+			init := x.ctx.Const(x.lazyName(b, m), ta.Sort)
 			n.mem[m] = x.ctx.Share(Ite(ca, ta, init))
 		}
 	}
 	for m, tb := range b.mem {
 		if _, ok := a.mem[m]; !ok {
-			init := x.ctx.Const(lazyMemName(m, a.memEpoch), tb.Sort)
+			init := x.ctx.Const(x.lazyName(a, m), tb.Sort)
 			n.mem[m] = x.ctx.Share(Ite(ca, init, tb))
 		}
 	}
@@ -357,6 +380,36 @@ func (x *Exec) merge(a, b *State) *State {
 	n.memEpoch = a.memEpoch
 	if b.memEpoch != a.memEpoch {
 		n.memEpoch = x.newEpoch()
+	}
+	if a.privEpoch == b.privEpoch {
+		n.privEpoch = a.privEpoch
+		n.fReachAll = a.fReachAll || b.fReachAll
+		for _, m := range []map[string]bool{a.fReach, b.fReach} {
+			for k := range m {
+				if n.fReach == nil {
+					n.fReach = map[string]bool{}
+				}
+				n.fReach[k] = true
+			}
+		}
+	} else {
+		n.privEpoch = x.newEpoch()
+		n.memEpoch = n.privEpoch
+	}
+	for _, m := range []map[string]int{a.pend, b.pend} {
+		for k := range m {
+			ea, eb := a.pend[k], b.pend[k]
+			if n.pend == nil {
+				n.pend = map[string]int{}
+			}
+			if ea == eb {
+				n.pend[k] = ea
+			} else if _, done := n.pend[k]; !done {
+				// havocked on one side only (or at different points): not the same memory
+				// any more on the merged path
+				n.pend[k] = x.newEpoch()
+			}
+		}
 	}
 	return n
 }
@@ -1160,6 +1213,12 @@ type writeSet struct {
 	vars map[types.Object]bool
 	mems map[string]bool
 	all  bool
+	// foreign: the code also calls functions outside the engine's view (dependencies,
+	// interface methods); reach names the struct types of the module whose values
+	// those calls are handed (see private.go), reachAll: that cannot be bounded.
+	foreign  bool
+	reach    map[string]bool
+	reachAll bool
 }
 
 func (x *Exec) loopOrdinal(fr *Frame, st ast.Stmt) (int, *Contract) {
@@ -1521,6 +1580,9 @@ func (x *Exec) loop(s *State, fr *Frame, node ast.Stmt, label string, condFn fun
 				x.pendingHavoc(h, m)
 			}
 		}
+		if ws.foreign {
+			x.havocForeign(h, ws, "loop body calls code outside the module")
+		}
 	}
 	if rx != nil {
 		// at the loop head the key/value variables denote the current index/element
@@ -1593,7 +1655,28 @@ func (x *Exec) loop(s *State, fr *Frame, node ast.Stmt, label string, condFn fun
 // pendingHavoc handles a havoc of a memory whose sort is not known yet: every
 // memory that was never materialised gets a fresh identity.
 func (x *Exec) pendingHavoc(s *State, m string) {
-	s.memEpoch = x.newEpoch()
+	if s.pend == nil {
+		s.pend = map[string]int{}
+	}
+	s.pend[m] = x.newEpoch()
+}
+
+// lazyName is the name under which a memory that was never touched on this path is
+// materialised: its identity at the last point where it may have changed.
+func (x *Exec) lazyName(s *State, name string) string {
+	// epochs are issued in increasing order: the latest event that may have changed
+	// this memory names it
+	e := s.memEpoch
+	if s.privEpoch != s.memEpoch && !s.fReachAll {
+		if k, ok := privateFieldOf(name); ok && !s.fReach[k.typeKey] && x.fieldIsPrivate(k) {
+			x.note("assumed", foreignAssumption)
+			e = s.privEpoch
+		}
+	}
+	if pe, ok := s.pend[name]; ok && pe > e {
+		e = pe
+	}
+	return lazyMemName(name, e)
 }
 
 func (x *Exec) newEpoch() int {
@@ -1731,7 +1814,7 @@ func (x *Exec) scanWrites(info *types.Info, node ast.Node, ws *writeSet, seen ma
 				}
 			}
 		case *ast.GoStmt, *ast.SelectStmt:
-			ws.all = true
+			ws.markAll()
 		case *ast.UnaryExpr:
 			if v.Op == token.AND {
 				// address taken: whoever receives it may write the addressed location (for a
@@ -1765,7 +1848,7 @@ func (x *Exec) markLvalue(info *types.Info, e ast.Expr, ws *writeSet) {
 		if pt, ok := info.TypeOf(v.X).Underlying().(*types.Pointer); ok {
 			x.markType(pt.Elem(), memName(pt.Elem()), ws)
 		} else {
-			ws.all = true
+			ws.markAll()
 		}
 	case *ast.IndexExpr:
 		switch u := info.TypeOf(v.X).Underlying().(type) {
@@ -1777,12 +1860,12 @@ func (x *Exec) markLvalue(info *types.Info, e ast.Expr, ws *writeSet) {
 			if at, ok := u.Elem().Underlying().(*types.Array); ok {
 				x.markType(at.Elem(), memName(at.Elem()), ws)
 			} else {
-				ws.all = true
+				ws.markAll()
 			}
 		case *types.Map:
 			// maps are opaque references; contents are not tracked
 		default:
-			ws.all = true
+			ws.markAll()
 		}
 	case *ast.SelectorExpr:
 		// find the innermost pointer dereference in the chain
@@ -1795,7 +1878,7 @@ func (x *Exec) markLvalue(info *types.Info, e ast.Expr, ws *writeSet) {
 			}
 			si := info.Selections[sel]
 			if si == nil {
-				ws.all = true
+				ws.markAll()
 				return
 			}
 			xt := info.TypeOf(sel.X)
@@ -1821,21 +1904,21 @@ func (x *Exec) markLvalue(info *types.Info, e ast.Expr, ws *writeSet) {
 			case *types.Array:
 				x.markType(info.TypeOf(e), memName(u.Elem())+path, ws)
 			default:
-				ws.all = true
+				ws.markAll()
 			}
 		case *ast.StarExpr:
 			if pt, ok := info.TypeOf(r.X).Underlying().(*types.Pointer); ok {
 				x.markType(info.TypeOf(e), memName(pt.Elem())+path, ws)
 			} else {
-				ws.all = true
+				ws.markAll()
 			}
 		case *ast.ParenExpr:
-			ws.all = true
+			ws.markAll()
 		default:
-			ws.all = true
+			ws.markAll()
 		}
 	default:
-		ws.all = true
+		ws.markAll()
 	}
 }
 
@@ -1869,7 +1952,7 @@ func selectionPath(si *types.Selection, recv types.Type) (string, types.Type, bo
 func (x *Exec) markType(t types.Type, prefix string, ws *writeSet) {
 	defer func() {
 		if r := recover(); r != nil {
-			ws.all = true
+			ws.markAll()
 		}
 	}()
 	for _, l := range x.leaves(t) {
@@ -1944,8 +2027,15 @@ func (x *Exec) scanCallWrites(info *types.Info, call *ast.CallExpr, ws *writeSet
 					return // callback stored in a field: assumed pure
 				}
 			}
+			if si := info.Selections[sel]; si != nil && si.Kind() == types.MethodVal {
+				if _, isIface := si.Recv().Underlying().(*types.Interface); isIface {
+					// dynamic dispatch: a callee outside the engine's view (private.go)
+					x.markForeign(info, call, ws)
+					return
+				}
+			}
 		}
-		ws.all = true
+		ws.markAll()
 		return
 	}
 	fn = fn.Origin()
@@ -1958,7 +2048,7 @@ func (x *Exec) scanCallWrites(info *types.Info, call *ast.CallExpr, ws *writeSet
 				if st, ok := info.TypeOf(call.Args[argIdx]).Underlying().(*types.Slice); ok {
 					x.markType(st.Elem(), memName(st.Elem()), ws)
 				} else {
-					ws.all = true
+					ws.markAll()
 				}
 			}
 		}
@@ -2004,24 +2094,36 @@ func (x *Exec) scanCallWrites(info *types.Info, call *ast.CallExpr, ws *writeSet
 	}
 	if seen[fn] || depth > 6 {
 		if !seen[fn] {
-			ws.all = true
+			ws.markAll()
 		}
 		return
 	}
 	d, ok := x.w.Decls[fn]
 	if !ok || d.Decl.Body == nil || d.Pkg.TypesInfo == nil {
-		ws.all = true
+		// a dependency or an interface method: see private.go
+		x.markForeign(info, call, ws)
+		return
+	}
+	if fn.Pkg() == nil || !strings.HasPrefix(fn.Pkg().Path(), repoModule) {
+		// a dependency whose source is loaded: its syntactic write set if that is
+		// informative (sort.Search only calls its argument), a foreign call otherwise
+		seen[fn] = true
+		sub := &writeSet{vars: map[types.Object]bool{}, mems: map[string]bool{}}
+		x.scanWrites(d.Pkg.TypesInfo, d.Decl.Body, sub, seen, depth+1)
+		if sub.all || sub.foreign {
+			x.markForeign(info, call, ws)
+		} else {
+			ws.absorb(sub)
+		}
 		return
 	}
 	seen[fn] = true
 	sub := &writeSet{vars: map[types.Object]bool{}, mems: map[string]bool{}}
 	x.scanWrites(d.Pkg.TypesInfo, d.Decl.Body, sub, seen, depth+1)
-	if sub.all {
-		ws.all = true
+	if debugHavoc && sub.all {
+		fmt.Fprintln(os.Stderr, "pvc: write set of", fullName(fn), "is 'everything' (depth", depth, ")")
 	}
-	for m := range sub.mems {
-		ws.mems[m] = true
-	}
+	ws.absorb(sub)
 	// a pointer-receiver method called on an addressable local writes that local
 	if sel, ok := call.Fun.(*ast.SelectorExpr); ok {
 		if id := rootIdent(sel.X); id != nil {
@@ -2138,6 +2240,9 @@ func (x *Exec) havocStmt(s *State, fr *Frame, st ast.Stmt) *State {
 				delete(s.mem, m)
 				x.pendingHavoc(s, m)
 			}
+		}
+		if ws.foreign {
+			x.havocForeign(s, ws, "unsupported statement calls code outside the module")
 		}
 	}
 	// control flow out of the statement (return/break) is lost: reject if it has any
